@@ -3,6 +3,8 @@
 -/
 import PysparklingVerif.Model.Sched
 import PysparklingVerif.Lemmas.SchedLemmas
+import PysparklingVerif.Model.SaveSched
+import PysparklingVerif.Lemmas.SaveSchedLemmas
 namespace PysparklingVerif.C03
 open PysparklingVerif.Sched
 
@@ -236,5 +238,55 @@ example : (runSched (· + 1) (fun _ => true) demoJob badSched (initSys demoJob [
     [some [0, 1], some [2, 3]] := by decide +kernel
 example : (collectJob [] (runIsolated (· + 1) (fun g => g % 2 == 0) demoJob [])).2 = [((7, 0), [1]), ((7, 1), [2])] := by
   decide +kernel
+
+/-! ### jobs with side effects: a saving job on a thread pool (Model/SaveSched.lean)
+
+`saveAsTextFile` tasks share the file system: each makes sure the target directory exists and writes its own part file.
+Under EVERY complete schedule the job ends as on the in-process executor; the same statement is false for the code as it
+was (`os.makedirs` without `exist_ok`: a task pre-empted between its existence test and `makedirs` failed). -/
+section SaveOnAPool
+open PysparklingVerif.SaveSched
+
+-- OBLIGATION: PysparklingVerif.C03.save_any_complete_schedule
+/-- the code as it is now: for every job and every complete schedule all tasks succeed, the directory exists (when there
+is at least one task) and partition `i`'s file holds exactly partition `i`'s lines — which is what the in-process
+executor (`sequential`) produces -/
+theorem save_any_complete_schedule (parts : List (List Nat)) (sched : List Nat) (hc : Complete parts.length sched) :
+    let s := run stepNew sched (initSys parts)
+    s.tasks.all (·.pc == .done) = true ∧
+    (∀ i, s.fs.files.lookup i = parts[i]?) ∧
+    outcome s = outcome (sequential stepNew parts) := by
+  intro s
+  have hs : Inv parts sched s := by
+    simpa [s] using inv_run parts sched [] (initSys parts) (inv_init parts)
+  obtain ⟨h1, h2⟩ := inv_complete parts sched s hs hc
+  have hq : Inv parts ((List.range parts.length).flatMap fun i => [i, i, i]) (sequential stepNew parts) := by
+    simpa [sequential] using inv_run parts _ [] (initSys parts) (inv_init parts)
+  obtain ⟨q1, q2⟩ := inv_complete parts _ _ hq (complete_sequential parts.length)
+  refine ⟨h1, h2, ?_⟩
+  unfold outcome
+  rw [h1, q1]
+  congr 1
+  funext i
+  rw [h2, q2]
+
+-- OBLIGATION: PysparklingVerif.C03.save_old_code_race
+/-- the code as it was: task 0 tests (no directory yet), task 1 runs to completion, task 0 resumes and its `makedirs`
+fails — under a complete schedule, while the in-process executor succeeds -/
+theorem save_old_code_race :
+    let parts := [[1, 2], [3, 4]]
+    let sched := [0, 1, 1, 1, 0, 0]
+    Complete parts.length sched ∧
+    (outcome (run stepOld sched (initSys parts))).1 = false ∧
+    (outcome (sequential stepOld parts)).1 = true ∧
+    (outcome (run stepNew sched (initSys parts))).1 = true := by
+  refine ⟨?_, by decide, by decide, by decide⟩
+  intro i hi
+  match i, hi with
+  | 0, _ => decide
+  | 1, _ => decide
+  | n + 2, h => exact absurd h (by simp)
+
+end SaveOnAPool
 
 end PysparklingVerif.C03
